@@ -78,8 +78,12 @@ def events_for(w: World) -> List[Tuple]:
         ev.append(("recv_keep", 1))
         ev.append(("create_seq_post", 2))
         ev.append(("recv_seq_post", 2))
+        ev.append(("create_seq_post", 1))
+        ev.append(("recv_seq_post", 1))
         ev.append(("create_context_seq", 2))
         ev.append(("recv_context_seq", 2))
+        ev.append(("create_context_seq", 1))
+        ev.append(("create_context", 1))
     if room >= 2:
         ev.append(("create_keep", 2))
         ev.append(("recv_keep", 2))
